@@ -146,8 +146,8 @@ def handleHistory (j : Json) : Except String Json := do
   let c0 : Option (Cache Nat Nat) := if isNil then none else some (newPlanCache ⟨me, mb, norm⟩)
   let st0 : St := ⟨c0, fun i => i, 1000⟩
   -- which key construction the code under test uses (found out by the harness): "coded" = operationName + "\x00" +
-  -- normKey with the fallback "raw:" + hex of FNV-1a-64 of the query; "repaired" = after D-06k.diff: length-prefixed
-  -- operation name, fallback "raw:" + query
+  -- normKey with the fallback "raw:" + hex of FNV-1a-64 of the query; "repaired" = after D-06k.diff: the same
+  -- join, fallback "raw:" + query
   let fb ← match (Driver.getStr cfg "keyShape").toOption with
     | none => pure keyShapeCoded
     | some "coded" => pure keyShapeCoded
